@@ -222,10 +222,10 @@ fn ddmin_overrides(bin: &Path, scratch: &Scratch, property: &str, class: &str, c
     }
 }
 
-pub fn minimise_and_write(bin: &Path, scratch: &Scratch, property: &str, found: &Found, verif: &Path, subdir: &str) -> Result<PathBuf, String> {
+pub fn minimise_and_write(bin: &Path, scratch: &Scratch, property: &str, found: &Found, verif: &Path, subdir: &str, budget_s: u64) -> Result<PathBuf, String> {
     let class = found.v.class.clone();
     let t0 = Instant::now();
-    let deadline = t0 + std::time::Duration::from_secs(90);
+    let deadline = t0 + std::time::Duration::from_secs(budget_s);
     let mut rng = Rng::new(simplan::fnv(class.as_bytes(), 99));
     // 0. the violation must recur as found (a run is a pure function of its plan)
     let mut cases = recurs(bin, scratch, property, &class, &found.cases, &mut rng, 0)
